@@ -221,6 +221,9 @@ class _Contr:
     def __init__(self, name, npts=2, off=0):
         self.name, self.npts, self.off = name, npts, off
         self.calls = []
+        # data that do not depend on the frame are kept on the contribution and handed out as the SAME list object on
+        # every call (the rods do this with their HigherOrderDegrees): the exporter must not grow it
+        self._per_cell_constant = [np.array([2 + j, 1], dtype=object) for j in range(npts)]
 
     def export(self, sol_i, **kwargs):
         self.calls.append((sol_i.t, dict(kwargs)))
@@ -231,7 +234,8 @@ class _Contr:
         pdata = {"v": [np.array([u[0], u[1], q[j % 3]], dtype=object) for j in range(self.npts)],
                  "d": np.array([[q[(j + self.off) % 3], u[(j + 1) % 2]] for j in range(self.npts)], dtype=object)}
         cdata = {"w": [np.array([q[0] * 1, u[1] * 1], dtype=object) for _ in cells],
-                 "e": np.array([[u[0] * 1, q[(j + self.off) % 3]] for j in range(len(cells))], dtype=object)}
+                 "e": np.array([[u[0] * 1, q[(j + self.off) % 3]] for j in range(len(cells))], dtype=object),
+                 "k": self._per_cell_constant}
         return pts, cells, pdata, cdata
 
 
@@ -309,7 +313,7 @@ def c_dataflow(k):
                             pts = p1 + p2
                             cells = c1 + [(t, [j + len(p1) for j in conn]) for t, conn in c2_]
                             pd = {"v": pd1["v"] + pd2["v"], "d": list(pd1["d"]) + list(pd2["d"])}
-                            cd = {"w": cd1["w"] + cd2["w"], "e": list(cd1["e"]) + list(cd2["e"])}
+                            cd = {"w": cd1["w"] + cd2["w"], "e": list(cd1["e"]) + list(cd2["e"]), "k": list(cd1["k"]) + list(cd2["k"])}
                         _grid_eq(k, f"{pvd} frame {i} {tag}", grid, pts, cells, pd, cd)
                 for fn, recs in first.items():
                     k.prove(f"a later export under the same name does not rewrite {Path(fn).name} {tag}", len(fake.files[fn]) == 1 and fake.files[fn][0] is recs[0])
